@@ -10,7 +10,9 @@ CLAIMS = {
         'are Python list index/slice semantics (also for the docstring-offset virtual list); slice put = old[:s]+new+old[e:] with frame and order lemmas; '
         'every FSTView operation is the Python list operation on its window for any healing history. Tie: translator + vm_compute correspondence '
         '(exhaustive small domain) for the functions, random op-sequence correspondence for the view model, and an API-level oracle over 38 container kinds '
-        '(expected tree = ast.parse of the independently rendered element list). Handler glue is not proved (cross-check only).',
+        '(expected tree = ast.parse of the independently rendered element list). models/Arglikes.v: the position of a keyword in the merged argument list is mapped to the keywords field '
+        'correctly iff no positional argument stands behind it, which is exactly when the insertion guard passes (tied by correspondence in the split-fields sweep). '
+        'Handler glue is not proved (cross-check only).',
    note='Trusted: Coq kernel/vm_compute; py/py2v translator; CPython ast as reference; the view model is hand-written (tied by correspondence); '
         'refusal allow-list py/props/C03_refusals_allow.json. No axioms.',
    design='DESIGN.md section 4 C03'),
@@ -20,7 +22,8 @@ CLAIMS = {
         'returns the byte position map of that splice; the TRANSLATED per-node rule of _offset equals the documented position map; under the syntax-order assumption '
         '(Ordered) the early-exit walk changes exactly the nodes the rule changes; the two-phase offset of put_src(action=offset) is mode_map (before: fixed, after: rigid, '
         'containers: grown, children: gap belongs to the container). Tie: translators + correspondence of _put_src/_get_src/_params_offset/_offset/put_src(offset) against the '
-        'models on random texts and real trees; oracle: every token gap x trivia-preserving replacement vs ast.parse of the new source, plus boundary gaps vs the geometric rule.',
+        'models on random texts and real trees; oracle: every token gap and every end-of-line gap (trailing spaces / line comment) x trivia-preserving replacement vs ast.parse of the new source, '
+        'with loc / bloc / pars of every node (queried before the edit in 70% of the cases) vs a fresh tree, coordinates also given as negative columns; plus boundary gaps vs the geometric rule.',
    note='Trusted: Coq kernel/vm_compute; py/py2v translators (pyfun, gen_fixups, gen_offset); CPython ast/tokenize as reference (OH1); Ordered is a hypothesis checked on every '
         'corpus tree; hand models Text.v (put_src) and Offset.v (walk) tied by correspondence. No axioms.',
    design='DESIGN.md section 3.1, 3.2, 4 C11'),
@@ -38,7 +41,8 @@ CLAIMS = {
    text='Proved (closed): for every nest of modification blocks with refusals and exceptions anywhere the registry _MODIFYING is observationally restored; from idle it ends idle; '
         'a refused enter changes nothing; the next edit of any node is admitted; every _modifying call site in the regenerated site list is a with-item or the guarded manual protocol. '
         'Partial: validate-before-mutate inside handlers is not modelled - decided by fault sequences: 15 kinds of invalid request interleaved with valid edits; after each raising '
-        'call source and ast.dump(include_attributes) must be identical and the registry empty; later edits must re-parse to themselves.',
+        'call source and ast.dump(include_attributes) must be identical and the registry empty; later edits must re-parse to themselves; deterministic sweeps over option values, '
+        'falsy codes, evaluation order and the ROOT as target (consumed / non-root / unparsable code).',
    note='Trusted: Coq kernel/vm_compute; py2v/gen_modsites scanner; hand model Registry.v tied to the real class by correspondence; CPython ast.dump as observer. No axioms.',
    design='DESIGN.md section 4 C12'),
  'C20': dict(
@@ -46,7 +50,8 @@ CLAIMS = {
    text='Proved (closed): reads are pure and per-call options win; invalid requests change nothing; an options() block restores exactly the names it sets (and the whole thread state when '
         'its body has no bare set_options), on normal and exceptional exit, for any nesting; for EVERY interleaving each thread ends where it would end alone; fresh threads see the '
         'translated defaults; registry operations on different roots commute; validate-before-update / restore-in-finally hold of the regenerated effect lists. '
-        'Partial (runtime): GIL atomicity and real preemption are exercised, not proved: 8 threads with switch interval 1e-6 vs the same scripts alone.',
+        'Partial (runtime): GIL atomicity and real preemption are exercised, not proved: 8 threads with switch interval 1e-6 vs the same scripts alone. Call isolation of cached answers and of '
+        'option VALUES (an `op` list / AST / FST reused across calls, blocks and set_options gives the result of a fresh equal value and is left unchanged) are deterministic sweeps.',
    note='Trusted: Coq kernel/vm_compute; py2v/gen_options; validity of a value is an oracle bit (harness supplies the documented domain and cross-checks the implementation against it); '
         'hand model Options.v tied by lock-step correspondence over real threads. No axioms.',
    design='DESIGN.md section 4 C20'),
@@ -56,7 +61,8 @@ CLAIMS = {
         'child order translated from _SYNTAX_ORDERED_CHILDREN (compat_sound + C14_tables_compatible_and_complete re-checked on the regenerated tables every run); the walk stack '
         'machines compute preorder / mirrored preorder (back) / postorder (leave) / bracketed order (both) / one-level filter for every tree and filter. Partial: the six '
         'position-interleaving classes, step_fwd/step_back and child_path are compared by correspondence/oracle only (walk set vs ast.walk, parent-first, sibling text order, '
-        'all chains mutually consistent, paths bijective, filtered walks bracketed).',
+        'all chains mutually consistent, paths bijective, filtered walks bracketed), the chains and stepping also under every `all` setting (True / False / loc / class / set) on a zoo of '
+        'programs holding every combination of optional child groups (decorators x type parameters x argument kinds x bases x keywords ...).',
    note='Trusted: Coq kernel/vm_compute; py2v/gen_traverse (also reads ASDL kinds from CPython ast docstrings); hand model Walk.v tied by correspondence; Module.type_ignores is '
         'excluded from the compatibility check (documented deviation). One genuine defect found and fixed (root filter on leave/both). No axioms.',
    design='DESIGN.md section 4 C14'),
@@ -89,7 +95,8 @@ CLAIMS = {
         'preserved by every interleaving of queries and passes, positions are independent of the queries made, hence answers after any history equal those of a never-queried '
         'tree; views heal after external length changes. Partial: text-reading caches (bloc, pars), the a/f/parent/pfield link structure and object identity are decided by the '
         'oracle: after every successful edit of random scripts, 37 queries on sampled nodes are compared with a fresh FST(root.src), with and without 30 cache-warming queries '
-        'before each edit, and both schedules must end in the identical source and tree.',
+        'before each edit, and both schedules must end in the identical source and tree; deterministic sweeps: every element of every list field deleted / inserted / replaced, every '
+        'leaf grown / shrunk, every node (un)parenthesized on layouts with children at the parent\'s column, keyword-glued parentheses and interleaved starred/keyword arguments.',
    note='Trusted: Coq kernel/vm_compute; hand model Cache.v (tied to the real cache/flush set by correspondence); a fresh FST(root.src) as reference observer. No axioms.',
    design='DESIGN.md section 4 C02'),
  'C17': dict(
@@ -102,7 +109,8 @@ CLAIMS = {
         'one-leaf difference, formatted vs pure AST vs re-layout, repeated calls). Nested quantifiers (models/MatchNested.v, any depth; one repetition is an atomic group as documented): proved '
         'sound for the regular language of the nested pattern, completeness REFUTED by the witness (?:b.?b)?b on bbb, complete for deterministic repetitions, exact and equal to the flat model on flat '
         'patterns; tied by correspondence to the real matcher (accept/reject + length of every repetition) and to re with atomic groups (?>...). A history stage reuses one pattern object over '
-        'sequences of targets (match / search / pure AST) against fresh pattern objects.',
+        'sequences of targets (match / search / pure AST) against fresh pattern objects. A field sweep builds, for every field of every node of 40 programs, the pattern of the node\'s own value '
+        '(plain and inside M / MOR / MAND / MNOT(MNOT)), one-element variants that must not match, and back-references to the captured field, on the formatted tree and the pure AST alike.',
    note='Trusted: Coq kernel/vm_compute; hand models Match.v and MatchNested.v tied by correspondence; Python re (with atomic groups for nested repetitions) as reference for quantifier sequences (OH3). No axioms.',
    design='DESIGN.md section 4 C17'),
  'C06': dict(
@@ -164,10 +172,12 @@ CLAIMS = {
  'C15': dict(
    technique='Coq proof: the on=enter walk loop over a heap of AST objects / FST handles against an adversary that supplies ANY well-formed heap after each yield subject to `legal` (existing objects keep parent and handle, new ones are fresh): invariant => no handle yielded twice, only attached nodes yielded, exactly the then-current children scheduled; correspondence on observed heaps (yields + WF/legal evaluated); mutation-during-walk oracle',
    text='Proved (closed): for every number of steps, every legal chain of heaps and every send pattern no FST handle is yielded twice; a handle is yielded only for an object attached at that moment; '
-        'detached objects are dropped silently, filtered ones not yielded but expanded; after the yield exactly the children of the handle\'s current AST are scheduled. Partial: termination, '
-        'leave/both/scope variants, search/sub consumers, legality of real replace/remove (evaluated on every observed heap) and the final C01 are decided by the oracle: random walks with replace/remove '
+        'detached objects are dropped silently, filtered ones not yielded but expanded; after the yield exactly the children of the handle\'s current AST are scheduled; on an UNMODIFIED tree '
+        '(models/WalkLeave.v) on=leave is the bottom-up order, on=both brackets every node, send(True) on leaving walks the children again then the node then what follows, send(False) on entry '
+        'skips the children but not the leave (5 theorems, tied to the real generator under random send() decisions). Partial: termination, '
+        'leave/both under mutation (deterministic resend sweep: replace + send(True) at every leaving yield, walk root included) and scope variants, search/sub consumers, legality of real replace/remove (evaluated on every observed heap) and the final C01 are decided by the oracle: random walks with replace/remove '
         'of the current node, ancestors and siblings and send(), checking no raise, bounded steps, attached-and-reachable yields, no double entry, new children next, final re-parse. One defect '
-        '(scope walk of comprehensions used stale nodes) was repaired in /repo.',
+        '(scope walk of comprehensions used stale nodes) and later ones (see known_findings.json fixed lines) were repaired in /repo.',
    note='Trusted: Coq kernel/vm_compute; hand model WalkMut.v tied by correspondence on heaps observed from the real objects (children order from astutil.syntax_ordered_children, checked in C14); CPython parser. No axioms.',
    design='DESIGN.md section 4 C15'),
  'C16': dict(
@@ -194,7 +204,7 @@ CLAIMS = {
    technique='Coq proof: expression <-> match-pattern coercion over a grammar covering everything the routines accept: whenever a coercion succeeds the result has exactly the names and constants of the operand in the same order (both directions), simple forms round-trip, other expressions are refused; correspondence of accept/refuse and result structure with as_(pattern) / FST(ast, pattern) / as_(expr); kind x mode matrix oracle',
    text='Proved (closed): for every expression of the modelled grammar that coerces to a pattern the pattern has the same leaves in the same order (wildcard, or-ladders flattened in order, mapping keys, class keyword names, '
         '** rest), likewise pattern to expression; captures, literals, signed numbers and attribute chains go there and back unchanged. Partial: the remaining coercion routines and formatting are decided by '
-        'the oracle: 65 hand operands + corpus nodes x 40 target modes: operand untouched under copy=True, result of the requested kind, verifies and re-parses in that mode to itself, same names/constants, same '
+        'the oracle: ~200 hand operands (every repeated element twice and three times, non-ASCII, parenthesized, multi-line) + corpus nodes x 40 target modes: operand untouched under copy=True, result of the requested kind, verifies and re-parses in that mode to itself, same names/constants, same '
         'kind unchanged, formatted vs pure-AST coercion agree, in-place == copy, coercing put == put of the converted node. Two defects repaired in /repo, one recorded as known finding (its wrong '
         'behaviour is pinned by an existing snapshot test).',
    note='Trusted: Coq kernel/vm_compute; hand model Coerce.v tied by correspondence; FST(src, mode) (C05) as the meaning of "parses in the requested mode". No axioms.',
